@@ -464,7 +464,7 @@ fn main() {
         let _ = stdin.lock().read_to_string(&mut sink);
         return;
     }
-    run_lines(|toks| match toks[0] {
+    run_lines_marked(|toks| match toks[0] {
         "prog" => run_turns(&toks[1..], false),
         "child" => run_in_child(toks),
         "free" => run_free(&toks[1..]),
